@@ -1,6 +1,7 @@
 package an
 
 import (
+	"sort"
 	"fmt"
 	"go/constant"
 	"go/token"
@@ -780,6 +781,15 @@ func CondFacts(cond ssa.Value, branch bool) []Cmp {
 					return fs
 				}
 			}
+			// a transparent predicate helper with several exits: besides "helper(args) == b", the facts
+			// that hold on every way the helper can return b, in the caller's frame
+			if fs := predicateFacts(f, &x.Call, branch); len(fs) > 0 {
+				bb := "c:false"
+				if branch {
+					bb = "c:true"
+				}
+				return append([]Cmp{{Path(cond), "==", bb}}, fs...)
+			}
 		}
 	}
 	b := "c:false"
@@ -787,6 +797,76 @@ func CondFacts(cond ssa.Value, branch bool) []Cmp {
 		b = "c:true"
 	}
 	return []Cmp{{Path(cond), "==", b}}
+}
+
+var predBusy = map[*ssa.Function]bool{}
+
+// predicateFacts: for a transparent helper returning one bool, the comparison facts established on
+// every path to a return that can yield `want` (const returns of the other value are excluded; a
+// non-constant result contributes its own condition facts).
+func predicateFacts(f *ssa.Function, call *ssa.CallCommon, want bool) []Cmp {
+	if !Transparent(f) || predBusy[f] || len(inlineEnv) > 3 {
+		return nil
+	}
+	res := f.Signature.Results()
+	if res.Len() != 1 {
+		return nil
+	}
+	if b, ok := res.At(0).Type().Underlying().(*types.Basic); !ok || b.Kind() != types.Bool {
+		return nil
+	}
+	predBusy[f] = true
+	defer delete(predBusy, f)
+	env := map[*ssa.Parameter]string{}
+	for i, p := range f.Params {
+		if i < len(call.Args) {
+			env[p] = Path(call.Args[i])
+		}
+	}
+	inlineEnv = append(inlineEnv, env)
+	defer func() { inlineEnv = inlineEnv[:len(inlineEnv)-1] }()
+	var common map[string]Cmp
+	n := 0
+	for _, r := range Returns(f) {
+		v := ResultValues(r)[0]
+		if IsConstBool(v, !want) {
+			continue
+		}
+		n++
+		here := map[string]Cmp{}
+		facts := map[Edge][]Cmp{}
+		edgeFactsOf(f, facts)
+		for e, fs := range facts {
+			if Guarded(f, r, []Edge{e}) {
+				for _, c := range fs {
+					here[c.String()] = c
+				}
+			}
+		}
+		if !IsConstBool(v, want) {
+			for _, c := range CondFacts(v, want) {
+				here[c.String()] = c
+			}
+		}
+		if common == nil {
+			common = here
+		} else {
+			for k := range common {
+				if _, ok := here[k]; !ok {
+					delete(common, k)
+				}
+			}
+		}
+	}
+	if n == 0 {
+		return nil
+	}
+	var out []Cmp
+	for _, c := range common {
+		out = append(out, c)
+	}
+	sort.Slice(out, func(i, j int) bool { return out[i].String() < out[j].String() })
+	return out
 }
 
 // Edge is a CFG edge From → From.Succs[Succ].
@@ -900,12 +980,15 @@ type reacher struct {
 	target func(ssa.Instruction) bool
 	callee map[*ssa.Function]*calleeResult
 	upSeen map[ssa.Instruction]bool
+	retVal []map[bool]bool // per active callee exploration: bool results seen on uncut returns
 }
 
 type calleeResult struct {
 	found ssa.Instruction
 	exits bool
 	busy  bool
+	// results a one-bool helper can still return once the cut is applied
+	canTrue, canFalse bool
 }
 
 // run explores from instruction i of block b0 inside b0's function; it returns the first target
@@ -938,6 +1021,17 @@ func (r *reacher) run(b0 *ssa.BasicBlock, i0 int) (ssa.Instruction, bool) {
 				// a helper's return is not an exit of the function under analysis
 				if ret.Block().Comment != "recover" {
 					exits = true
+					if n := len(r.retVal); n > 0 && len(ret.Results) == 1 {
+						v := ResultValues(ret)[0]
+						switch {
+						case IsConstBool(v, true):
+							r.retVal[n-1][true] = true
+						case IsConstBool(v, false):
+							r.retVal[n-1][false] = true
+						default:
+							r.retVal[n-1][true], r.retVal[n-1][false] = true, true
+						}
+					}
 				}
 				continue
 			}
@@ -951,10 +1045,16 @@ func (r *reacher) run(b0 *ssa.BasicBlock, i0 int) (ssa.Instruction, bool) {
 			if h := transparentCallee(in); h != nil {
 				res := r.callee[h]
 				if res == nil {
-					res = &calleeResult{busy: true, exits: true}
+					res = &calleeResult{busy: true, exits: true, canTrue: true, canFalse: true}
 					r.callee[h] = res
+					r.retVal = append(r.retVal, map[bool]bool{})
 					f, ex := r.run(h.Blocks[0], 0)
+					vals := r.retVal[len(r.retVal)-1]
+					r.retVal = r.retVal[:len(r.retVal)-1]
 					res.found, res.exits, res.busy = f, ex, false
+					if len(vals) > 0 {
+						res.canTrue, res.canFalse = vals[true], vals[false]
+					}
 				}
 				if res.found != nil {
 					return res.found, exits
@@ -975,10 +1075,48 @@ func (r *reacher) run(b0 *ssa.BasicBlock, i0 int) (ssa.Instruction, bool) {
 			if r.cut.edgeCut(s.b, k) {
 				continue
 			}
+			if r.infeasible(s.b, k) {
+				continue
+			}
 			work = append(work, start{succ, 0})
 		}
 	}
 	return nil, exits
+}
+
+// infeasible: the branch tests the result of a transparent predicate helper that, under the cut, can no
+// longer return the value this branch needs.
+func (r *reacher) infeasible(b *ssa.BasicBlock, k int) bool {
+	iff, ok := b.Instrs[len(b.Instrs)-1].(*ssa.If)
+	if !ok {
+		return false
+	}
+	cond := iff.Cond
+	neg := false
+	for {
+		u, ok := cond.(*ssa.UnOp)
+		if !ok || u.Op != token.NOT {
+			break
+		}
+		cond, neg = u.X, !neg
+	}
+	call, ok := cond.(*ssa.Call)
+	if !ok {
+		return false
+	}
+	h := transparentCallee(call)
+	if h == nil {
+		return false
+	}
+	res := r.callee[h]
+	if res == nil || res.busy || len(helperSites[h]) != 1 {
+		return false // result summary is only exact for a single call site
+	}
+	need := (k == 0) != neg
+	if need {
+		return !res.canTrue
+	}
+	return !res.canFalse
 }
 
 // after explores from the instruction following `from`; when `from` lives in a transparent helper
